@@ -63,6 +63,7 @@ type Cell struct {
 	V     Val
 	Epoch int    // allocation epoch (for race tracking)
 	Name  string // optional debug name (field path)
+	Track bool   // field of a struct type declared by the code under test (race tracking)
 }
 
 type Ptr struct {
@@ -130,6 +131,7 @@ type MapObj struct {
 	E     []mapEntry
 	Epoch int
 	Name  string
+	Track bool
 }
 type Map struct{ M *MapObj }
 
@@ -319,9 +321,16 @@ func (m *Machine) zero(t types.Type) Val {
 		return Ptr{}
 	case *types.Struct:
 		s := Struct{F: make([]*Cell, u.NumFields())}
+		tn := ""
+		track := false
+		if n, ok := t.(*types.Named); ok {
+			tn = n.Obj().Name() + "."
+			track = m.underTest(n.Obj())
+		}
 		for i := range s.F {
 			s.F[i] = m.newCell(m.zero(u.Field(i).Type()))
-			s.F[i].Name = u.Field(i).Name()
+			s.F[i].Name = tn + u.Field(i).Name()
+			s.F[i].Track = track
 		}
 		return s
 	case *types.Array:
@@ -361,7 +370,7 @@ func (m *Machine) copyVal(v Val) Val {
 	case Struct:
 		n := Struct{F: make([]*Cell, len(x.F))}
 		for i, c := range x.F {
-			n.F[i] = &Cell{V: m.copyVal(c.V), Epoch: m.epoch, Name: c.Name}
+			n.F[i] = &Cell{V: m.copyVal(c.V), Epoch: m.epoch, Name: c.Name, Track: c.Track}
 		}
 		return n
 	case *Array:
@@ -407,4 +416,13 @@ func (m *Machine) assignInto(c *Cell, v Val) {
 		}
 	}
 	c.V = m.copyVal(v)
+}
+
+// underTest: declared by the module under test, not by an injected harness file.
+func (m *Machine) underTest(o types.Object) bool {
+	if o.Pkg() == nil || !strings.HasPrefix(o.Pkg().Path(), m.modPrefix) || strings.Contains(o.Pkg().Path(), "zz_verif") {
+		return false
+	}
+	f := m.prog.Fset.Position(o.Pos()).Filename
+	return !strings.Contains(f, "zz_verif_")
 }
